@@ -270,7 +270,8 @@ class Life:
         ref = weakref.ref(h["obj"])
         h["obj"] = None
         h["alive"] = False
-        gc.collect()
+        if ref() is not None:  # reference counting already finalised it unless it sits in a cycle
+            gc.collect()
         check(ref() is None, "collect:alive",
               lambda: f"{what}: hook {h['hid']} ({h['kind']}) still alive after its last reference was dropped and gc.collect()")
         self.stats["collected"] += 1
@@ -562,7 +563,8 @@ def run_postcond(case):
             ref = weakref.ref(d.hook)
             d.hook = None
             d.m["alive"] = False
-            gc.collect()
+            if ref() is not None:  # reference counting already finalised it unless it sits in a cycle
+                gc.collect()
             check(ref() is None, "collect:alive", lambda: f"{what}: hook still alive after its last reference was dropped")
         else:
             raise ValueError(name)
@@ -668,13 +670,13 @@ def postcond_case(draw, tier="quick"):
 LEGS = [
     Leg(
         name="lifecycle", run=run_lifecycle, strategy=lambda tier: lifecycle_case(tier),
-        quick=700, thorough=12000, quick_shards=8, thorough_shards=8, nt_floor=0.3,
+        quick=1500, thorough=8000, quick_shards=8, thorough_shards=16, nt_floor=0.3,
         rule="operation sequence with >= 1 module call on which an armed hook fired and >= 1 module call on which a "
              "hook was suppressed (mode flag, not registered / registered elsewhere, or collected)",
     ),
     Leg(
         name="postcond", run=run_postcond, strategy=lambda tier: postcond_case(tier),
-        quick=700, thorough=12000, quick_shards=8, thorough_shards=8, nt_floor=0.2,
+        quick=1500, thorough=8000, quick_shards=8, thorough_shards=16, nt_floor=0.2,
         rule="sequence around one Clamping / Normalization hook with >= 1 firing that turned freshly written, "
              "non-conforming attribute values into conforming ones and >= 1 module / manual call on which the hook "
              "was not armed and non-conforming values stayed untouched",
